@@ -1,6 +1,6 @@
 (* C01 — tamper evidence: soundness of VerifyDualProof / VerifyDualProofV2 / entry inclusion with
    respect to a well-formed history whose state (targetTxID, targetAlh) the verifier trusts. *)
-From V Require Import Proofs.History Proofs.Binding Proofs.Linear Merkle.Sound.
+From V Require Import Proofs.History Proofs.Gen Proofs.Binding Proofs.Linear Merkle.Sound.
 From Coq Require Import ZifyN ZifyNat ZifyBool.
 
 Lemma In_takeN {A} (l : list A) : forall n x, In x (takeN n l) -> In x l.
@@ -14,11 +14,6 @@ Proof.
   intros Hn Hl. destruct l as [|x l]; [congruence|]. cbn [takeN].
   destruct (N.eqb_spec n 0); [contradiction | discriminate].
 Qed.
-
-Definition hdr0 : txhdr :=
-  {| h_id := 0; h_prevalh := []; h_ts := 0; h_version := 0; h_md := None; h_nentries := 0;
-     h_eh := []; h_bltxid := 0; h_blroot := [] |}.
-Definition hd_at (hs : list txhdr) (k : N) : txhdr := nth (N.to_nat (k - 1)) hs hdr0.
 
 Lemma tx_at_range hs k h : tx_at hs k = Some h -> 1 <= k <= lenN hs.
 Proof.
